@@ -31,11 +31,22 @@ pub fn install_epmd(world: &Arc<World>, creation: u32, peer_alive: &str, peer_po
 
 /// `lookup_delay_ms`: how long the daemon takes to answer a port lookup (a loaded or distant EPMD).
 pub fn install_epmd_slow(world: &Arc<World>, creation: u32, peer_alive: &str, peer_port: u16, x_resp: bool, lookup_delay_ms: u64) {
+    install_epmd_net(world, creation, peer_alive, peer_port, x_resp, lookup_delay_ms, false)
+}
+
+/// `choppy`: the daemon's answers reach the client a byte at a time with pauses (a reply is a stream
+/// like any other; nothing says it arrives in one piece).
+pub fn install_epmd_net(world: &Arc<World>, creation: u32, peer_alive: &str, peer_port: u16, x_resp: bool, lookup_delay_ms: u64, choppy: bool) {
     let peer_alive = peer_alive.to_string();
     world.listen(
         EPMD_ADDR,
         Box::new(move |w: &Arc<World>, _addr: &str| -> ConnectFuture {
-            let d = duplex(w, 0, &EndCfg::default(), &EndCfg::default());
+            let d = if choppy {
+                w.stat("net.epmd_reply_in_pieces");
+                duplex(w, 0, &EndCfg { chunking: crate::net::Chunking::Byte, spurious_16: 5, max_delay_ms: 3, ..Default::default() }, &EndCfg { short_writes: true, latency_ms: 2, ..Default::default() })
+            } else {
+                duplex(w, 0, &EndCfg::default(), &EndCfg::default())
+            };
             let Duplex { client_read, client_write, mut server_read, mut server_write, .. } = d;
             let peer_alive = peer_alive.clone();
             let w2 = w.clone();
